@@ -613,3 +613,35 @@ Example C17_struct_position_instance :
   fault_xv w_words w_pu c17s_env 12 c17s_nested c17s_native ["p"; "b"] /\
   fault_xs w_words w_pu c17s_env 12 c17s_nested c17s_native ["p"; "b"].
 Proof. exact (conj c17s_pos_unser_ex (conj c17s_pos_validate_ex c17s_pos_serialize_ex)). Qed.
+
+(* a one-of over struct-mapped members, given a NATIVE struct value: the member is found by the reflected type of the
+   value (findUnderlyingType); Validate puts the {oneof[k]} marker in front of the member's path, Serialize passes the
+   member's error on unchanged; a value whose type no member has is reported at the one-of *)
+Theorem C17_struct_oneof_native_validate_path : forall words pu f e types ik field inlined v tv key member er,
+  xnative_struct v tv ->
+  find (fun ks => match xstruct_rtype e (snd ks) with Some t => gtype_eqb t tv | None => false end) types = Some (key, member) ->
+  xvalidate words pu (S f) e member v = Err er ->
+  xvalidate words pu (S (S f)) e (XOneOf types ik field inlined) v = Err (add_seg (oneof_seg key) er).
+Proof. exact struct_oneof_native_validate_path. Qed.
+Print Assumptions C17_struct_oneof_native_validate_path.
+
+Theorem C17_struct_oneof_native_serialize_path : forall words pu f e types ik field inlined v tv key member er,
+  xnative_struct v tv ->
+  find (fun ks => match xstruct_rtype e (snd ks) with Some t => gtype_eqb t tv | None => false end) types = Some (key, member) ->
+  xserialize words pu (S f) e member v = Err er ->
+  xserialize words pu (S (S f)) e (XOneOf types ik field inlined) v = Err er.
+Proof. exact struct_oneof_native_serialize_path. Qed.
+Print Assumptions C17_struct_oneof_native_serialize_path.
+
+Theorem C17_struct_oneof_native_no_member : forall words pu f e types ik field inlined v tv,
+  xnative_struct v tv ->
+  find (fun ks => match xstruct_rtype e (snd ks) with Some t => gtype_eqb t tv | None => false end) types = None ->
+  xvalidate words pu (S (S f)) e (XOneOf types ik field inlined) v = Err (cerr ERepr) /\
+  xserialize words pu (S (S f)) e (XOneOf types ik field inlined) v = Err (cerr ERepr).
+Proof. exact struct_oneof_native_no_member. Qed.
+Print Assumptions C17_struct_oneof_native_no_member.
+
+Example C17_struct_oneof_native_instance :
+  xvalidate w_words w_pu 12 c17s_env c17s_oneof (xs_inner_v 1 "q") = Err (mkErr true ["{oneof[inner]}"; "b"] EBound) /\
+  xserialize w_words w_pu 12 c17s_env c17s_oneof (xs_inner_v 1 "q") = Err (mkErr true ["b"] EBound).
+Proof. exact c17s_oneof_native_ex. Qed.
